@@ -187,6 +187,20 @@ def run(tier, seed):
         fmt_report.append({'spaces': sz, 'option_sets': len(optsets),
                            'option_set_examples': [options.key(o) for o in optsets[:3] + optsets[-2:]],
                            'format_calls': m['extra']['format_calls'], 'outcomes': dict(m['outcomes'])})
+    # structured malformed inputs: C09's product of block kinds x inner content ending in a middle token x comment
+    # attached after the closer x what follows, under one option set per filter
+    from checks import c09
+    att = c09.attach_cases()
+    if tier == 'quick':
+        att = [c for c in att if c[0] in ('', 'select ')]
+    m, sz = e1.run([], _mk_eval_format(single), seed, bits=22, setup=_setup, extra_cases=[('ATTACH product', att, '')])
+    viols += m['viol']
+    vc.update(m['viol_count'])
+    n_eval += m['n']
+    n_dist += m['distinct']
+    fcalls += m['extra']['format_calls']
+    fmt_report.append({'spaces': sz, 'option_sets': len(single), 'format_calls': m['extra']['format_calls'],
+                       'outcomes': dict(m['outcomes'])})
     inv_viols, inv_n = invalid_option_checks(sqlparse)
     for v in inv_viols:
         vc[(v['kind'], v['sig'])] += 1
